@@ -312,9 +312,16 @@ func (c buildCtx) fillStruct(v reflect.Value, l []interface{}, idx *int) {
 			continue
 		}
 		if excluded(f) {
+			// excluded fields must have no effect on the file: give them a non-zero value where reflection can
+			if v.Field(i).CanSet() {
+				setNonZero(v.Field(i), 0)
+			}
 			continue
 		}
 		if _, ok := nodeOf(f.Type, ""); !ok {
+			if v.Field(i).CanSet() {
+				setNonZero(v.Field(i), 0)
+			}
 			continue
 		}
 		if *idx >= len(l) {
@@ -322,6 +329,43 @@ func (c buildCtx) fillStruct(v reflect.Value, l []interface{}, idx *int) {
 		}
 		c.fill(v.Field(i), l[*idx])
 		*idx++
+	}
+}
+
+// setNonZero gives a value some non-zero content (best effort).
+func setNonZero(v reflect.Value, depth int) {
+	if depth > 3 || !v.CanSet() {
+		return
+	}
+	switch v.Kind() {
+	case reflect.Int, reflect.Int8, reflect.Int16, reflect.Int32, reflect.Int64:
+		v.SetInt(7)
+	case reflect.Uint, reflect.Uint8, reflect.Uint16, reflect.Uint32, reflect.Uint64:
+		v.SetUint(7)
+	case reflect.Float32, reflect.Float64:
+		v.SetFloat(7.5)
+	case reflect.Bool:
+		v.SetBool(true)
+	case reflect.String:
+		v.SetString("excluded")
+	case reflect.Ptr:
+		nv := reflect.New(v.Type().Elem())
+		setNonZero(nv.Elem(), depth+1)
+		v.Set(nv)
+	case reflect.Slice:
+		s := reflect.MakeSlice(v.Type(), 2, 2)
+		setNonZero(s.Index(0), depth+1)
+		v.Set(s)
+	case reflect.Map:
+		v.Set(reflect.MakeMap(v.Type()))
+	case reflect.Struct:
+		for i := 0; i < v.NumField(); i++ {
+			setNonZero(v.Field(i), depth+1)
+		}
+	case reflect.Array:
+		for i := 0; i < v.Len(); i++ {
+			setNonZero(v.Index(i), depth+1)
+		}
 	}
 }
 
@@ -690,6 +734,7 @@ type jobCase struct {
 	KeepFile  string      `json:"keepfile,omitempty"`
 	Light     bool        `json:"light,omitempty"` // omit page level/value detail from events
 	Sched     interface{} `json:"sched,omitempty"` // instances + schedule (C13), see sched.go
+	ReadFile  string      `json:"readfile,omitempty"` // read this file instead of writing one (C15); Expect holds its logical rows
 }
 
 type job struct {
@@ -1341,6 +1386,25 @@ func runCase(c jobCase) {
 	}
 	if c.Sched != nil {
 		runSched(c)
+		return
+	}
+	if c.ReadFile != "" {
+		file, err := os.ReadFile(c.ReadFile)
+		if err != nil {
+			emit(event{"ev": "HarnessError", "detail": err.Error()})
+			return
+		}
+		ctx := buildCtx{poff: c.Poff}
+		rows := toList(c.Expect)
+		canon := make([]interface{}, len(rows))
+		for i, r := range rows {
+			var rec Rec
+			ctx.fill(reflect.ValueOf(&rec).Elem(), r)
+			canon[i] = ctx.abstract(reflect.ValueOf(&rec).Elem())
+		}
+		emit(event{"ev": "Expect", "rows": canon})
+		res := runReader(file, &source{data: file}, c.Poff, len(rows)*2+50, false)
+		emit(res.event("regen", nil))
 		return
 	}
 	if c.SinkFault != 0 {
